@@ -1,8 +1,9 @@
 (* Props/C02.v — property theorems only.  Models: Model/Syntax.v (parser),
    Model/Emit.v (emitter), on the tables of Gen/excelformula.v, regenerated
    from /repo/src/pycel/excelformula.py on every run. *)
-From Coq Require Import ZArith List.
-From PV Require Import Lib.Py Model.Syntax Model.Emit Proofs.C02Parse Proofs.C02.
+From Coq Require Import ZArith QArith List.
+From PV Require Import Lib.Py Model.Syntax Model.Emit Model.FormulaEval.
+From PV Require Import Proofs.C02Parse Proofs.C02 Proofs.C02Number Proofs.C02Eval.
 From PV Require Gen.excelformula.
 Import ListNotations.
 Open Scope Z_scope.
@@ -71,3 +72,64 @@ Theorem C02_number_partial : forall s, s <> [] -> forallb is_digit s = true ->
   py_decint s = Some (dec_value s 0).
 Proof. exact number_partial. Qed.
 Print Assumptions C02_number_partial.
+
+(* a number of Excel's grammar — digits [. digits] [E [+-] digits], at least one
+   mantissa digit, exponent up to 300 — other than an integer with a superfluous
+   leading zero (the known finding) is a Python literal: an int when written
+   with digits only, a float otherwise (Python's float grammar = Lib/Py.v
+   parse_float, the exact rational), and it denotes the rational Excel reads.
+   12.5, .25, 2., 1E+3, 2.5E-1, 007.5 are instances (Proofs/C02Number.v). *)
+Theorem C02_number : forall s q, xl_number s = Some q -> zeros_ok s = true ->
+  py_number s = xl_numval s /\
+  exists v n, py_number s = Some v /\ as_num v = Some n /\ (num_q n == q)%Q.
+Proof. exact number_correct. Qed.
+Print Assumptions C02_number.
+
+(* EVALUATION.  For every environment E — the name space of the compiled
+   lambda: arbitrary meanings of _C_ / _R_ (all cell values) and of every
+   library function, arbitrary plain names — the Python tree of the emitted
+   code, evaluated as the code object built by _compile_python_ast evaluates it
+   (Model/FormulaEval.v pyeval: BinOp / Compare / UnaryOp are calls
+   excel_operator_operand_fixup(l, op name, r), unary minus with left operand
+   EMPTY; calls look the name up, then evaluate the arguments left to right;
+   literals by Python's rules), is the Excel meaning of the tree (xleval:
+   literals denote themselves, a reference is the cell reader applied to the
+   normalised address, -x, x%, x op y through the same fixup under Excel's
+   operator, a call applies the environment's function to the argument values,
+   an omitted argument is None).  Fragment: [arith] (that of C02_emit) and
+   [lit_ok]: numbers as in C02_number, complete text tokens, TRUE / FALSE, error
+   constants without quotes or backslashes, no function whose Python name is
+   _REF_.  Exceptions (the same one, raised by the same sub-expression) included. *)
+Theorem C02_eval : forall (E : env) e, arith e -> lit_ok e ->
+  forall c, pyeval E (pyabs (emit c e)) = xleval E e.
+Proof. exact eval_correct. Qed.
+Print Assumptions C02_eval.
+
+(* text -> value: with C02_parse, the token string of every well-formed
+   concrete tree (redundant parentheses, precedence, associativity, omitted
+   arguments) whose tree is in the fragment evaluates — parsed, emitted,
+   compiled, run, None / EMPTY turned into 0 — to its Excel meaning *)
+Theorem C02_eval_text : forall (E : env) c, WF c -> arith (abs c) -> lit_ok (abs c) ->
+  exists e, parse (flat c) = Some e /\ py_value E e = xl_value E (abs c).
+Proof. exact eval_text. Qed.
+Print Assumptions C02_eval_text.
+
+(* the executable test the harness uses to tell which generated trees are in
+   the fragment of C02_eval is sound *)
+Theorem C02_eval_fragment : forall e, evalb e = true -> arith e /\ lit_ok e.
+Proof. exact evalb_sound. Qed.
+Print Assumptions C02_eval_fragment.
+
+(* C02_parse / C02_rpn with array constants: [WFA] = [WF] plus {a,b;c,d} (one or
+   more rows of one or more constants — number, text, logical, error tokens) as
+   an operand anywhere in the tree; the pre-pass turns it into
+   ARRAY( ARRAYROW(a,b), ARRAYROW(c,d) ) and the tree is
+   EFunc ARRAY [EFunc ARRAYROW [a; b]; EFunc ARRAYROW [c; d]].  (A signed number
+   inside an array constant is two tokens and is not covered.) *)
+Theorem C02_parse_array : forall c, WFA c -> parse (flat c) = Some (abs c).
+Proof. exact parse_correct_array. Qed.
+Print Assumptions C02_parse_array.
+
+Theorem C02_rpn_array : forall c, WFA c -> sy (flat c) = Some (post c).
+Proof. exact sy_correct_array. Qed.
+Print Assumptions C02_rpn_array.
